@@ -375,7 +375,7 @@ def run(tier, seed, replay=None):
     # ---------------------------------------------------------------- L1: the nets the theorems are about
     # (regenerated kernels and Model/Factory.v, run in Q on the exact values of libm's cos/sin/sqrt)
     import math
-    corr_bad = None
+    corr_bad = C.Corr()
     lines, meta = [], []
 
     def qrows(rows):
@@ -421,10 +421,10 @@ def run(tier, seed, replay=None):
         n = tk.int()
         got = [[float(x) for x in tk.qlist()] for _ in range(n)]
         ok = len(got) == len(want) and all(len(g) == len(w) and all(abs(a - b) <= 1e-12 * max(1, abs(b)) for a, b in zip(g, w)) for g, w in zip(got, want))
-        if not ok and corr_bad is None:
-            corr_bad = {'what': 'L1: control net of %s differs from the model (Gen kernel / Model/Factory.v)' % name, 'op': name, 'args': args,
+        if not ok and corr_bad.open():
+            corr_bad += {'what': 'L1: control net of %s differs from the model (Gen kernel / Model/Factory.v)' % name, 'op': name, 'args': args,
                         'model': got, 'implementation': np.asarray(want).tolist()}
-    rc = V.finish(l0, corr_bad if not V.fail else None)
+    rc = V.finish(l0, corr_bad)
     C.write_evidence(PID, tier, seed, l0, {
         'evaluations': evals, 'distinct_nontrivial': len(nontriv),
         'rule': 'every primitive factory with random placement (centres, scaled Pythagorean normals/axes incl. +-coordinate axes, x-axes orthogonal to the normal), radii, '
